@@ -65,8 +65,8 @@ def drive(case: dict):
     seq = [alpha[i] for i in case["seq"]]
     pos, slot, cause, nested = case["pos"], case["slot"], case["cause"], case["nested"]
     ns_after = case.get("ns_after")
-    opts = DR.make_options(cls, preset, case["frame_size"], True, generalized=True,
-                           ns=bool(ns_after))
+    opts = DR.make_options(cls, preset, case["frame_size"], case.get("delimited", True),
+                           case.get("logical"), generalized=True, ns=bool(ns_after))
     stream = DR.g_stream(cls, opts) if api == "generic" else DR.r_stream(cls, opts)
     out = io.BytesIO()
     from pyjelly.serialize.ioutils import write_delimited  # noqa: PLC0415
@@ -245,6 +245,11 @@ def shard(job) -> dict:
                 variants.append({**base, "reenter": True})
             if cls == "graph" and cause != "short_tuple" and n >= 2:
                 variants.append({**base, "pregen": True})
+            if cls == "graph" and n >= 2 and frame_size == 250:
+                # flows that cut per dataset / never (not by size)
+                variants.append({**base, "logical": 4})
+                variants.append({**base, "logical": 14})
+                variants.append({**base, "delimited": False})
             for case in variants:
                 acc.evals += 1
                 try:
